@@ -79,7 +79,8 @@ func verIndex(s string) int {
 	return -1
 }
 
-var extraFile = map[string]string{"aaa-before": "AAA-before.txt", "zzz-after": "zzz-after.so", "embeds-prefix": "libnotation-p.so"}
+var extraFile = map[string]string{"aaa-before": "AAA-before.txt", "zzz-after": "zzz-after.so", "embeds-prefix": "libnotation-p.so",
+	"cand-before": "notation-aaa", "cand-after": "notation-zzz"}
 
 func installScript(marker, name, version, metaKind, origin string) string {
 	extra := ""
@@ -203,6 +204,10 @@ func runPluginInstall() int {
 						atom = "zzz-after"
 					case de.Name() == extraFile["embeds-prefix"]:
 						atom = "embeds-prefix"
+					case de.Name() == extraFile["cand-before"]:
+						atom = "cand-before"
+					case de.Name() == extraFile["cand-after"]:
+						atom = "cand-after"
 					}
 					obs.Files = append(obs.Files, atom)
 					if !de.IsDir() {
